@@ -17,7 +17,7 @@ CLAIMED = {
     "C06": ("TLA+ requirement Events(tokens) (JsonEvents.tla); TLC enumerates bounded JSON token lists with expected events (GenJson) "
             "replayed through the JSON, schema and enum scanners; TLC trace validation (TraceEvents) of random deep texts",
             "Every text of the TLC-enumerated domain (all scalar forms, nesting <= 2/3, three layouts) must yield exactly the event list "
-            "the specification computes, under four call preludes; random texts to depth 8 x width 8 are validated event-for-event by TLC, "
+            "the specification computes, under 24 call preludes, and the same events when it stands embedded in foreign text under AllowTrailingNonSpaceCharacters; random texts to depth 8 x width 8 are validated event-for-event by TLC, "
             "which also evaluates nesting, span and rebuild clauses on the observed events.",
             "Internal schema/enum scanners are reached through overlay-injected export files (build tag verif); schema scanner compared only "
             "on exponent-free numerals and enum scanner only on duplicate-free scalar arrays (their input languages).", "3/C06"),
